@@ -5,7 +5,12 @@
    code did; [mismatches] lists the cases on which the model disagrees.
    Compared: outcome class (ok / which stage refused / panic), the key bytes of the loaded signer, the
    exported bytes, the decoded content of a written file, and two facts about a loaded signer (its
-   signature verifies under the key it reports; its address is the one derived by types.KeyAddress). *)
+   signature verifies under the key it reports; its address is the one derived by types.KeyAddress).
+   Histories (OpHistory): the operations applied one after the other to ONE path; per step the result and the
+   decoded, labelled content of the file AFTER the step are compared with [hstep] run on the model's own
+   state.  Sessions (OpSession): Sign called again and again on one signer (buffer re-used, rewritten in
+   place); per call: does the signature verify for the bytes at call time, and of which call's bytes is it
+   the signature. *)
 From Coq Require Import NArith List Bool Arith.
 From Verif Require Import Model.KeyFile.
 Import ListNotations.
@@ -22,19 +27,30 @@ Inductive kop :=
 | OpExport (f : file sym) (pass : bytes)
 | OpImport (priv pass salt nonce : bytes)
 | OpSave (s : signer) (pass salt nonce : bytes)
-| OpFallback (pass : bytes).
+| OpFallback (pass : bytes)
+| OpHistory (f : file sym) (ops : list hop)      (* the operations applied one after the other to ONE path *)
+| OpSession (s : signer) (ops : list sop).       (* Sign called again and again on one loaded signer *)
+
+(* one observed step of a history: what the call returned, two facts about a signer it yielded, and the
+   (decoded, labelled) content of the file AFTER the call *)
+Record hobs := mk_hobs { ho_res : hres; ho_sig : bool; ho_addr : bool; ho_file : file sym }.
 
 Inductive kobs :=
 | ObLoad (o : outcome signer) (sig_ok addr_ok : bool)
 | ObBytes (o : outcome bytes)
-| ObFile (o : outcome (file sym)).
+| ObFile (o : outcome (file sym))
+| ObHistory (l : list hobs)
+(* per Sign call: the signature verifies under GetPublic for the bytes the message held at the time of the
+   call; index of the first call of the session of whose message (bytes at the time of THAT call) the
+   returned signature is the Ed25519 signature under the signer's key, 9999 = of none *)
+| ObSession (l : list (bool * N)).
 
 Record kcase := mk_case { kc_op : kop; kc_obs : kobs }.
 
 Definition err_eqb (a b : err) : bool :=
   match a, b with
   | EIo, EIo | EJson, EJson | ELegacyEmpty, ELegacyEmpty | ENonce, ENonce | EDecrypt, EDecrypt
-  | EPriv, EPriv | EPub, EPub | EMismatch, EMismatch | EOther, EOther => true
+  | EPriv, EPriv | EPub, EPub | EMismatch, EMismatch | EExists, EExists | EOther, EOther => true
   | _, _ => false
   end.
 
@@ -70,6 +86,52 @@ Definition file_eqb (a b : file sym) : bool :=
 
 Definition probe_msg : bytes := [118; 101; 114; 105; 102]%N.
 
+Definition hres_eqb (m o : hres) : bool :=
+  match m, o with
+  | RSigner a, RSigner b => outcome_eqb signer_eqb a b
+  | RBytes a, RBytes b => outcome_eqb bytes_eqb a b
+  | RDone a, RDone b => outcome_eqb (fun _ _ => true) a b
+  | _, _ => false
+  end.
+
+(* a history: the model is run from the initial file on its OWN state; at step i (from 1) the codes are
+   100*i + (1 = result differs, 2 = signature fact, 3 = address fact, 4 = the file after the step differs) *)
+Fixpoint check_hist (i : N) (f : file sym) (ops : list hop) (obs : list hobs) : list N :=
+  match ops, obs with
+  | [], [] => []
+  | op :: r, o :: ro =>
+      let fr := hstep sym f op in
+      (if hres_eqb (snd fr) (ho_res o) then [] else [100 * i + 1]%N) ++
+      match snd fr with
+      | RSigner (Ok s) =>
+          (if Bool.eqb (signer_verifies sym s probe_msg) (ho_sig o) then [] else [100 * i + 2]%N) ++
+          (if Bool.eqb (bytes_eqb (signer_address sym s) (key_address sym (signer_public s))
+                        && bytes_eqb (noop_address sym (s_priv s)) (signer_address sym s)) (ho_addr o)
+           then [] else [100 * i + 3]%N)
+      | _ => []
+      end ++
+      (if file_eqb (fst fr) (ho_file o) then [] else [100 * i + 4]%N) ++
+      check_hist (i + 1) (fst fr) r ro
+  | _, _ => [9%N]
+  end.
+
+Fixpoint first_index (x : bytes) (l : list bytes) (i : N) : N :=
+  match l with
+  | [] => 9999%N
+  | y :: r => if bytes_eqb y x then i else first_index x r (i + 1)
+  end.
+
+(* a signing session: call i (from 1): 100*i + (5 = "verifies" differs, 6 = the signature is that of another call's bytes) *)
+Fixpoint check_sess (i : N) (s : signer) (all : list bytes) (msgs sigs : list bytes) (obs : list (bool * N)) : list N :=
+  match msgs, sigs, obs with
+  | [], [], [] => []
+  | m :: rm, sg :: rs, (ok, origin) :: ro =>
+      (if Bool.eqb (verify_under sym (signer_public s) m sg) ok then [] else [100 * i + 5]%N) ++
+      (if N.eqb (first_index sg all 0) origin then [] else [100 * i + 6]%N) ++
+      check_sess (i + 1) s all rm rs ro
+  | _, _, _ => [9%N]
+  end.
+
 (* 1 = outcome differs, 2 = signature fact differs, 3 = address fact differs, 9 = ill-formed case *)
 Definition check_case (c : kcase) : list N :=
   match kc_op c, kc_obs c with
@@ -88,6 +150,10 @@ Definition check_case (c : kcase) : list N :=
   | OpImport k p s n, ObFile o => if outcome_eqb file_eqb (import sym k p s n) o then [] else [1%N]
   | OpSave s p sa n, ObFile o => if outcome_eqb file_eqb (Ok (save sym s p sa n)) o then [] else [1%N]
   | OpFallback p, ObBytes o => if outcome_eqb bytes_eqb (fallback_derive p) o then [] else [1%N]
+  | OpHistory f ops, ObHistory obs => check_hist 1 f ops obs
+  | OpSession s ops, ObSession obs =>
+      let sigs := session_sigs sym s ops in
+      check_sess 1 s sigs (session_msgs [] ops) sigs obs
   | _, _ => [9%N]
   end.
 
